@@ -36,6 +36,7 @@ TNext ==
   \/ Step(Ev.op = "Relist" /\ Relist(Ev.d))
   \/ Step(Ev.op = "Restrike" /\ Restrike(Ev.d))
   \/ Step(Ev.op = "SetCost" /\ SetCost(Ev.d))
+  \/ Step(Ev.op = "Abort" /\ Abort(Ev.h, Ev.d))
   \/ Step(Ev.op = "Fit" /\ Fit(Ev.h, Ev.d, Ev.n, Ev.ver[UL[Ev.d]], Ev.pvs[Ev.h]))
 TSpec == TInit /\ [][TNext]_tvars
 
